@@ -1,22 +1,22 @@
 SPECIFICATION Spec
 CONSTANTS
-  Replica = {1, 2, 3}
+  Replica = {1, 2}
   InitVoters = {1, 2}
   ET = 5
   HT = 1
   PreVote = FALSE
   CheckQuorum = FALSE
-  MaxTerm = 2
+  MaxTerm = 3
   MaxLen = 4
   MaxMsgs = 2
   MaxDup = 0
   MaxCrash = 0
-  MaxProp = 0
+  MaxProp = 1
   MaxRead = 0
   MaxCC = 1
   MaxSnap = 0
-  CCChoices <- CCAdd3Remove2
-  JoinKind <- Join3V
+  CCChoices <- CCRemove2
+  JoinKind <- NoJoin
   Eager = TRUE
   G <- GAll
   TrackEvidence = FALSE
